@@ -52,8 +52,8 @@ class SourceGen:
         if c < 0.75:
             op = r.choice(['!', '-'])
             inner = self.expr(depth + 1, False)
-            if op == '-' and inner[:1] in '-0123456789':
-                inner = '(' + inner + ')'
+            if op == '-' and (inner[:1] == '-' or (inner[:1] in '0123456789' and r.random() < 0.5)):
+                inner = '(' + inner + ')'      # ('-2' is written both ways: a unary minus applied to the number 2)
             return op + inner
         args = ', '.join(self.expr(depth + 1, False) for _ in range(r.randint(0, 3)))
         return f'{r.choice(FUNCS)}({args})'
@@ -218,4 +218,30 @@ def outside_literal_positions(line):
         elif ch != ' ':
             out.append(i)
         i += 1
+    return out
+
+
+def zero_gap_positions(line):
+    """Indexes i (outside literals) where the grammar allows white space although the canonical text has none, so
+    that a continuation break may be put between line[:i] and line[i:] (the join then writes one space there):
+    before a comma, after an opening and before a closing parenthesis, before the colon that ends an if / elif /
+    while / for header, after a unary '-' or '!'."""
+    outside = set(outside_literal_positions(line))
+    out = []
+    n = len(line)
+    head = line.split(' ', 1)[0]
+    for i in range(1, n):
+        if i not in outside or (i - 1) not in outside:
+            continue
+        ch, prev = line[i], line[i - 1]
+        if ch == ',' and prev != ' ':
+            out.append(i)
+        elif prev == '(' and ch not in ') ':
+            out.append(i)
+        elif ch == ')' and prev not in '( ':
+            out.append(i)
+        elif ch == ':' and i == n - 1 and head in ('if', 'elif', 'while', 'for'):
+            out.append(i)
+        elif prev in '-!' and ch != ' ' and ch != '=' and (i == 1 or line[i - 2] in ' (!-'):
+            out.append(i)
     return out
